@@ -93,6 +93,7 @@ def gen_lists(rng, A, count):
         items = []
         sigs = set()
         base_sigs = []
+        prev_scales = []
         tries = 0
         while len(items) < n and tries < 50:
             tries += 1
@@ -102,7 +103,10 @@ def gen_lists(rng, A, count):
                 it = {"kind": "atom", "key": base, "mag": dict(A.atoms[base]["mag"]), "named": True,
                       "cxx": A.atoms[base]["cxx_type"], "origin": A.atoms[base]["has_origin"]}
             else:
-                sm, sc = rand_scale(rng)
+                # now and then the SAME scale factor as an earlier item of this list (Celsius*2 next to Kelvins*2: equal
+                # dimension, magnitude and scale, different origin — every ordering key up to the origin ties)
+                sm, sc = rng.choice(prev_scales) if prev_scales and rng.random() < 0.35 else rand_scale(rng)
+                prev_scales.append((sm, sc))
                 mag = uexpr.add(A.atoms[base]["mag"], sm)
                 if r < 0.8:
                     it = {"kind": "scaled", "key": base, "smag": sm, "mag": mag, "named": False,
@@ -125,6 +129,25 @@ def gen_lists(rng, A, count):
             items.append(it)
         if len(items) >= 2:
             lists.append({"dim": dict(d), "items": items})
+    # directed: two DISTINCT base units of equal dimension and magnitude but different origin (Celsius / Kelvins,
+    # Fahrenheit / Rankines, prefixed forms) carrying the SAME scale factor: every ordering key before the origin ties
+    pairs = []
+    for d, ks in groups.items():
+        for a in ks:
+            for b in ks:
+                if a < b and A.atoms[a]["mag"] == A.atoms[b]["mag"] and A.atoms[a]["has_origin"] != A.atoms[b]["has_origin"]:
+                    pairs.append((d, a, b))
+    rng.shuffle(pairs)
+    for d, a, b in pairs[:6]:
+        sm, sc = rand_scale(rng)
+        def sc_item(base):
+            return {"kind": "scaled", "key": base, "smag": sm, "mag": uexpr.add(A.atoms[base]["mag"], sm), "named": False,
+                    "cxx": f"decltype({A.atoms[base]['cxx_unit']} * {sc})", "origin": A.atoms[base]["has_origin"]}
+        def at_item(base):
+            return {"kind": "atom", "key": base, "mag": dict(A.atoms[base]["mag"]), "named": True, "cxx": A.atoms[base]["cxx_type"],
+                    "origin": A.atoms[base]["has_origin"]}
+        lists.append({"dim": dict(d), "items": [sc_item(a), sc_item(b)]})
+        lists.append({"dim": dict(d), "items": [sc_item(b), at_item(a), sc_item(a)]})
     return lists, gen_named
 
 
@@ -188,7 +211,7 @@ def main(tier, seed):
     rng = rng_for(PROP, seed)
     proof = prove(PROP)
     A = uexpr.Atoms(wd, rng, n_prefixed=30)
-    nlists = 260 if tier == "quick" else 4000
+    nlists = 260 if tier == "quick" else 1600
     lists, gen_named = gen_lists(rng, A, nlists)
     blocks = [block(i, L) for i, L in enumerate(lists)]
     violations = []
@@ -197,7 +220,7 @@ def main(tier, seed):
         configs = [("g++", "c++14"), ("clang++-14", "c++17")]
     else:
         configs.append(("clang++-14", ["c++14", "c++17", "c++20"][seed % 3]))
-    nchunks = 16
+    nchunks = max(16, len(lists) // 16)      # at most ~16 lists (with all their permutations) per translation unit
     results = {}
     stats = {"lists": len(lists), "sizes": {}, "kinds": {}, "irrational_lists": 0, "is_input_lists": 0, "configs": [],
              "compile_failures": 0, "permutations_checked": 0}
